@@ -138,6 +138,7 @@ class SessionManager:
         self._method_counts = defaultdict(int)
         self._reorg_count = 0
         self._notified_reorg_count = 0
+        self._history_invalidations = 0
         self._history_cache = pylru.lrucache(1000)
         self._history_lookups = 0
         self._history_hits = 0
@@ -835,7 +836,12 @@ class SessionManager:
             result = self._history_cache[hashX]
             self._history_hits += 1
         except KeyError:
-            result = await self.db.limited_history(hashX, limit=limit)
+            # Ensure the history is fresh before placing it in the cache
+            while True:
+                invalidations = self._history_invalidations
+                result = await self.db.limited_history(hashX, limit=limit)
+                if invalidations == self._history_invalidations:
+                    break
             cost += 0.1 + len(result) * 0.001
             if len(result) >= limit:
                 result = RPCError(BAD_REQUEST, 'history too large', cost=cost)
@@ -853,7 +859,9 @@ class SessionManager:
         if height_changed:
             self._notified_reorg_count = self._reorg_count
             await self._refresh_hsub_results(height)
-        # Invalidate our history cache for touched hashXs
+        # Invalidate our history cache for touched hashXs, and histories being read
+        if touched:
+            self._history_invalidations += 1
         cache = self._history_cache
         for hashX in set(cache).intersection(touched):
             del cache[hashX]
